@@ -301,8 +301,8 @@ for _s in SHAPES:
 PIPE_SHAPES = [((1, 1), 2), ((2,), 2), ((1, 2), 2), ((2, 1), 2), ((1,), 2), ((1, 1), 1), ((1, 1), 4), ((3,), 2), ((1, 1, 1), 2)]
 
 
-def _mk_pipe(shape, w):
-    tag = "x".join(str(c) for c in shape) + f",w={w}"
+def _mk_pipe(shape, w, cut=False):
+    tag = "x".join(str(c) for c in shape) + f",w={w}" + (",cut" if cut else "")
     n = len(shape)
     C = sum(shape)
 
@@ -311,7 +311,7 @@ def _mk_pipe(shape, w):
                                          "is_signed": ("const", True)})
         return ("obj", "smpl_extract.data_streams:DataStream", {"stream": VIEW, "encoding": enc, "frame_size": ("const", ch * w)})
 
-    @contract(f"lemma:pipeline_block[{tag}]", props=["C12", "C05"], lemma_module="smpl_extract.transcoder",
+    @contract(f"lemma:pipeline_block[{tag}]", props=["C15"] if cut else ["C12", "C05"], lemma_module="smpl_extract.transcoder",
               lemma_deps=[T + "make_transcoder", T + "PipelineTranscoder.__next__", T + "decode_frame", T + "encode_frame", T + "pad_channels",
                           T + "swap_endianess", T + "swap_endianess_multi"],
               lemma_src=("def block(streams, dest):\n"
@@ -324,8 +324,8 @@ def _mk_pipe(shape, w):
         c.bind["system_byte_order"] = ("int", "system_byte_order == 1 or system_byte_order == 2")
         c.bind["_DEFAULT_BUFFER_SIZE"] = ("int", "_DEFAULT_BUFFER_SIZE >= 1")
         for k in range(n):
-            c.requires(f"(streams[{k}].encoding.endianess == 1 or streams[{k}].encoding.endianess == 2) and streams[{k}].stream.cur >= 0 "
-                       f"and not streams[{k}].stream.may_fail", f"stream-{k}-well-formed")
+            c.requires(f"(streams[{k}].encoding.endianess == 1 or streams[{k}].encoding.endianess == 2) and streams[{k}].stream.cur >= 0"
+                       + ("" if cut else f" and not streams[{k}].stream.may_fail"), f"stream-{k}-well-formed")
         if n == 1:
             c.requires("streams[0].encoding.endianess == 2", "single-stream-takes-the-pipeline-only-when-its-byte-order-differs")
         c.define("nf", [], ("imin(" + ", ".join(f"imax(1, _DEFAULT_BUFFER_SIZE // {shape[k] * w})" for k in range(n)) + ")") if n > 1
@@ -338,7 +338,12 @@ def _mk_pipe(shape, w):
         mx = frs[0] if n == 1 else "imax(" + ", ".join(frs) + ")"
         mn_pre = frs_pre[0] if n == 1 else "imin(" + ", ".join(frs_pre) + ")"
         c.returns(("bytes", "int"))
-        c.raises("StopIteration", f"{mn_pre} == 0")
+        if cut:
+            # over a truncated image a read may fail: the block then ENDS the data (StopIteration) - a block that is returned is still
+            # a complete block with every channel in its place (never a block holding only the channels read so far)
+            c.raises("StopIteration", f"{mn_pre} == 0 or " + " or ".join(f"streams[{k}].stream.may_fail" for k in range(n)))
+        else:
+            c.raises("StopIteration", f"{mn_pre} == 0")
         c.ensures(f"len(result) == {mx} * {C * w}", "as-many-frames-as-the-longest-stream-in-this-block")
         ch0 = 0
         for k in range(n):
@@ -356,3 +361,4 @@ def _mk_pipe(shape, w):
 
 for (_sh, _w) in PIPE_SHAPES:
     _mk_pipe(_sh, _w)
+_mk_pipe((1, 1), 2, cut=True)
